@@ -128,7 +128,7 @@ Proof.
   apply run_sitems_dry in E3; [|assumption].
   destruct (pop st2) as [[st4 cr] evp] eqn:E6. apply pop_quiet in E6.
   intros E; inversion E; subst; clear E. cbn [app]. rewrite !allq_app, E3, E6.
-  destruct (rule_should_run cfg anc r || c_show_skipped cfg); [|reflexivity].
+  destruct (rule_runs cfg anc r || c_show_skipped cfg); [|reflexivity].
   destruct (match r_bg r with Some _ => true | None => fhb end); reflexivity.
 Qed.
 
@@ -162,7 +162,7 @@ Proof.
   apply run_fitems_dry in E3; [|assumption].
   destruct (pop st2) as [[st4 cr] evp] eqn:E6. apply pop_quiet in E6.
   intros E; inversion E; subst; clear E. cbn [app]. rewrite !allq_app, E3, E6.
-  destruct (feature_should_run cfg f || c_show_skipped cfg); [|reflexivity].
+  match goal with |- context [feature_runs cfg ?b f] => destruct (feature_runs cfg b f || c_show_skipped cfg) end; [|reflexivity].
   destruct (f_bg f); reflexivity.
 Qed.
 
@@ -211,7 +211,7 @@ Proof.
 Qed.
 
 Lemma run_scenario_unselected cfg st id all_steps oe eff own :
-  c_expr cfg eff = false ->
+  sel cfg eff = false ->
   run_scenario cfg st id all_steps oe eff own =
   (st,
    mkScenRes id
@@ -239,7 +239,7 @@ Qed.
 
 Lemma run_scenario_unselected_no_bad :
   forall cfg st id all_steps oe eff own,
-    c_expr cfg eff = false ->
+    sel cfg eff = false ->
     exists res ev,
       run_scenario cfg st id all_steps oe eff own = (st, res, false, ev) /\
       existsb RunnerVerdict.bad ev = false.
@@ -250,3 +250,56 @@ Proof.
   destruct (c_show_skipped cfg); [|reflexivity]. cbn.
   induction all_steps as [|s r IH]; [reflexivity|exact IH].
 Qed.
+
+(* ---- selection = tag expression and not excluded; exclusion is inherited *)
+Lemma sel_le cfg t : c_expr cfg t = false -> sel cfg t = false.
+Proof. unfold sel. intros ->. reflexivity. Qed.
+Lemma sel_expr cfg t : sel cfg t = true -> c_expr cfg t = true.
+Proof. unfold sel. intros H. now apply andb_true_iff in H as [H _]. Qed.
+Lemma excluded_inherited cfg own anc : excluded cfg anc = true -> excluded cfg (own ++ anc) = true.
+Proof. unfold excluded. intros H. rewrite existsb_app, H. apply orb_true_r. Qed.
+Lemma sel_excluded cfg own anc : excluded cfg anc = true -> sel cfg (own ++ anc) = false.
+Proof. intros H. unfold sel. rewrite (excluded_inherited _ own _ H). apply andb_false_r. Qed.
+
+(* does any scenario of the item run? *)
+Definition sitem_any_sel (cfg : config) (anc : list nat) (it : sitem) : bool :=
+  match it with
+  | SScen s => sel cfg (sc_tags s ++ anc)
+  | SOutline o => existsb (fun rw => sel cfg (rw_tags rw ++ anc)) (outline_rows o)
+  end.
+
+Lemma existsb_false_weaken {A} (p q : A -> bool) l :
+  (forall x, q x = true -> p x = true) -> existsb p l = false -> existsb q l = false.
+Proof.
+  intros H. induction l as [|x r IH]; cbn; [reflexivity|]. intros E. apply orb_false_iff in E as [E1 E2].
+  rewrite (IH E2), orb_false_r. destruct (q x) eqn:Q; [|reflexivity]. apply H in Q. congruence.
+Qed.
+
+Lemma sitem_any_sel_le cfg anc it : sitem_should_run cfg anc it = false -> sitem_any_sel cfg anc it = false.
+Proof.
+  destruct it as [s|o]; cbn [sitem_should_run sitem_any_sel]; intros H.
+  - now apply sel_le.
+  - apply orb_false_iff in H as [_ H]. revert H. apply existsb_false_weaken. intros x. apply sel_expr.
+Qed.
+
+Lemma sitem_any_sel_excluded cfg anc it : excluded cfg anc = true -> sitem_any_sel cfg anc it = false.
+Proof.
+  intros H. destruct it as [s|o]; cbn [sitem_any_sel].
+  - now apply sel_excluded.
+  - induction (outline_rows o) as [|rw r IH]; cbn; [reflexivity|]. now rewrite (sel_excluded _ _ _ H), IH.
+Qed.
+
+(* an item that runs nothing: no scenario of it is selected (tag expression and exclusions), a rule does not run *)
+Definition fitem_runs (cfg : config) (anc : list nat) (it : fitem) : bool :=
+  match it with
+  | FItem i => sitem_any_sel cfg anc i
+  | FRule r => rule_runs cfg anc r
+  end.
+
+Lemma fitem_runs_le cfg anc it : fitem_should_run cfg anc it = false -> fitem_runs cfg anc it = false.
+Proof.
+  destruct it as [i|r]; cbn [fitem_should_run fitem_runs]; intros H.
+  - now apply sitem_any_sel_le.
+  - unfold rule_runs. now rewrite H.
+Qed.
+
